@@ -66,3 +66,33 @@ TEXTS["C16"] = {
             "made to fail returns / swallows the error (unguarded readings refuted by witnesses); slice aliasing is outside the model.",
     "technique": "Coq proof generic in an abstract lawful cacher (coherence invariant by induction over op lists) + differential correspondence on policy-independent observables + Go monitors + factory-guard grid",
 }
+
+PERSIST_NOTE = ("Trusted: Coq kernel; the hand-written models, tied to /repo by differential runs and not proved equal to the Go code; extraction; OCaml driver; Go harness. "
+                "Modelling assumption: goleveldb applies a batch atomically in record order, and a cleanly closed database reopens with the same content. "
+                "Sequential only; the timer is an explicit event. No axioms.")
+TEXTS["C08"] = {
+    "text": "Coq proof that for DB, SerialDB, memorydb and the sharded persister the abstraction overlay(removed, cached, disk) follows the map key->option bytes step by step "
+            "for every history over Put/Remove/Get/Has/Tick, every MaxBatchSize and every key/value (nil = empty); Get returns abs k (not found iff None); Has agrees with Get; "
+            "cached/removed stay disjoint. The models are transcriptions of the Go methods (post F10/F11/F14) and are run against the real persisters on LevelDB directories.",
+    "note": PERSIST_NOTE,
+    "technique": "Coq proof (refinement to a map spec by induction over op lists) + differential correspondence check on real LevelDB directories + Go monitors (reference map of acknowledged writes)",
+}
+TEXTS["C09"] = {
+    "text": "Coq proof that Close returns nil and the persister opened afterwards on the same path presents exactly abs of the state before Close via Get, Has and RangeKeys (each binding once), "
+            "for histories split by any number of Close;Reopen cycles at arbitrary points; RangeKeys of an open persister presents the flushed map; operations on a closed DB/SerialDB never reach LevelDB. "
+            "Tied to the code by differential runs with real close/reopen cycles on LevelDB directories and by monitors.",
+    "note": PERSIST_NOTE,
+    "technique": "Coq proof (abstraction preserved across Close;Reopen, induction over op lists with cycles) + differential correspondence check with real reopen + Go monitors",
+}
+TEXTS["C19"]["text"] += (" The sharded persister (model: list of persisters indexed by compute_id) refines ONE map; every op on k touches shard compute_id n k only; "
+                         "RangeKeys is the duplicate-free union of the shards (Props/C19b.v), checked differentially through sharded.NewShardedPersister over DB/SerialDB/memorydb.")
+TEXTS["C20"] = {
+    "text": "Machine-checked proof (Coq) over every history of Put/HasOrAdd/Get/Has/Peek/Remove/Clear/(un)register, every size S and shard count N with S >= 2N, every non-empty key, "
+            "on a transcription of the dependency's ring-buffer shard and of the cache wrapper: ring invariant; Len <= N*(ceil(S/N)-1) <= S; the entry just inserted is present with its value; "
+            "an entry stays while at most ceil(S/N)-2 further insertions reach its shard (hence the cache-wide count of the text), shown tight by example; with one shard Keys() evolves as a FIFO list "
+            "in which only the front entry can be pushed out and an overwrite re-enters at the back; Get/Has/Peek/Keys/Len agree; HasOrAdd on a present key changes nothing; handlers are called "
+            "exactly once per insertion per registered id; Clear empties. The model is tied to the Go code by running both on the same histories (exhaustive small scope + random) comparing all "
+            "observables after every operation. The empty key is outside the theorems: the dependency drops it (finding F12).",
+    "note": "Trusted: Coq kernel; the hand-written model (differentially validated, not proved equal to the Go code); extraction; OCaml driver; Go harness (handlers awaited with a 2 s timeout). No axioms.",
+    "technique": "Coq proof (refinement of the ring by a fixed-length queue, list decomposition) + differential correspondence check + text-derived monitors",
+}
